@@ -103,6 +103,7 @@ class Program:
         self.functions: dict[str, FuncInfo] = {}
         self.lib_enums: dict[str, list[str]] = {}  # simple class name -> member names
         self.lib_enum_alias: dict[str, dict[str, str]] = {}
+        self.lib_int_enums: set[str] = set()
         self.lib_classes: set[str] = set()
         self.spacepackets_version = "?"
         self.digest = ""
@@ -276,6 +277,8 @@ class Program:
                     continue
                 self.lib_classes.add(st.name)
                 if any(ast.unparse(b).split(".")[-1] in ("Enum", "IntEnum") for b in st.bases):
+                    if any(ast.unparse(b).split(".")[-1] == "IntEnum" for b in st.bases):
+                        self.lib_int_enums.add(st.name)
                     members = []
                     values: dict[str, str] = {}
                     for s in st.body:
@@ -286,6 +289,22 @@ class Program:
                     self.lib_enum_alias.setdefault(st.name, values)
 
     # ------------------------------------------------------------------ queries
+    def enum_is_falsy(self, cls: str, name: str) -> bool:
+        """IntEnum members with value 0 are falsy (e.g. TransmissionMode.ACKNOWLEDGED)"""
+        val = None
+        if cls in self.lib_int_enums:
+            val = self.lib_enum_alias.get(cls, {}).get(name)
+        else:
+            ci = self.class_by_simple(cls)
+            if ci is not None and ci.is_enum and any(b.split(".")[-1] in ("IntEnum", "IntFlag") for b in ci.bases) and name in ci.class_attrs:
+                val = ast.unparse(ci.class_attrs[name])
+        if val is None:
+            return False
+        try:
+            return int(ast.literal_eval(val)) == 0
+        except (ValueError, SyntaxError):
+            return False
+
     def mro(self, cls: str) -> list[ClassInfo]:
         out: list[ClassInfo] = []
         seen = set()
